@@ -52,3 +52,16 @@ Example C18_example_shrink :
   | None => False
   end.
 Proof. vm_compute. reflexivity. Qed.
+
+Example C18_example_interval_lowered :
+  (* GCInterval 25, lowered to 1 after the first Put (the histories [ops] of the theorems above contain such
+     assignments of the exported field: [VSetGCI]); the Put at 10 = 0 + ttl is then due and collects the
+     first event; without the assignment it is not due *)
+  let ops := [VPut 0 None 1 [[]]; VSetGCI 0 1; VPut 10 None 2 [[]]] in
+  match vr_new 10 true (Some 25%Z) with
+  | Some s => map (fun p : rout * vstate => count (v_q (snd p))) (fst (vr_trace s ops)) = [1; 1; 1]%nat /\
+              map (fun p : rout * vstate => count (v_q (snd p)))
+                  (fst (vr_trace s [VPut 0 None 1 [[]]; VPut 10 None 2 [[]]])) = [1; 2]%nat
+  | None => False
+  end.
+Proof. vm_compute. split; reflexivity. Qed.
